@@ -281,7 +281,8 @@ def write_evidence(prop, tier, coverage, wall, violations, assumptions):
 
 def write_replay(prop, tag, payload):
     REPLAYS.mkdir(exist_ok=True)
-    p = REPLAYS / f"{prop}-{seed()}-{tag}.json"
+    alt = "" if str(REPO) == "/repo" else "-alt"          # runs against a scratch worktree never overwrite replays of /repo
+    p = REPLAYS / f"{prop}-{seed()}-{tag}{alt}.json"
     p.write_text(json.dumps(payload, indent=1, default=str) + "\n")
     return p
 
